@@ -534,7 +534,9 @@ def run_case(ctx, case: dict) -> None:
 
 
 def _run_case(ctx, case: dict) -> None:
-    if case.get("kind") == "vanished-child":
+    if case.get("kind") == "resend-after-release":
+        arun(resend_after_release_case(ctx, case))
+    elif case.get("kind") == "vanished-child":
         arun(vanished_child_case(ctx, case))
     elif case.get("kind") == "in-flight-duplicate":
         arun(in_flight_duplicate_case(ctx, case))
@@ -552,6 +554,45 @@ def _run_case(ctx, case: dict) -> None:
         arun(nonmessage_case(ctx, case))
     else:
         arun(send_case(ctx, case))
+
+
+async def resend_after_release_case(ctx, case: dict) -> None:
+    """One Message object (a constant like LIGHT_ON, or one object whose payload the application updates) sent to a sleeping
+    node, released at a wake, sent AGAIN, and so on: every send is held and released once at the following wake."""
+    from aiomysensors.model.message import Message
+    from aiomysensors.model.node import Child, Node
+
+    version = case["version"]
+    gateway, transport = new_gateway(version)
+    stepper = Stepper(gateway, transport)
+    gateway.nodes[DEST] = Node(DEST, 17, "2.0", children={0: Child(0, 3)}, sleeping=True)
+    wake = 32 if gateway.protocol.VERSION == "2.2" else 22
+    message = Message(DEST, 0, 1, case["ack"], 2, "on")
+    released = []
+    for round_ in range(case["rounds"]):
+        if case["update_payload"]:
+            message.payload = f"level-{round_}"
+        kind, exc = await stepper.tx(message)
+        sent_now = transport.take_writes()
+        await stepper.rx(f"{DEST};255;3;0;{wake};1\n")
+        released.append((kind, sent_now, transport.take_writes()))
+        if case["fail_between"] and round_ == 0:
+            transport.fail_attempts = {transport.attempts}
+            await stepper.tx(Message(DEST, 0, 1, 0, 3, "other"))
+            await stepper.rx(f"{DEST};255;3;0;{wake};1\n")
+            transport.fail_attempts = set()
+            await stepper.rx(f"{DEST};255;3;0;{wake};1\n")
+            transport.take_writes()
+    ctx.case(("resend-after-release", version, case["ack"], case["rounds"], case["update_payload"], case["fail_between"]), sample=case)
+    ctx.clause("same-object-sent-again-after-release")
+    for round_, (kind, sent_now, at_wake) in enumerate(released):
+        want = f"{DEST};0;1;{case['ack']};2;" + (f"level-{round_}" if case["update_payload"] else "on") + "\n"
+        if kind != "ok" or sent_now or at_wake.count(want) != 1:
+            ctx.violation("held-message-lost" if not at_wake.count(want) else "send-altered",
+                          f"send #{round_} of one Message object to sleeping node {DEST}: outcome {kind}, written at send time "
+                          f"{sent_now}, released at the following wake {at_wake} (expected {want!r} once)", case)
+            break
+    await stepper.close()
 
 
 async def vanished_child_case(ctx, case: dict) -> None:
@@ -669,6 +710,11 @@ def run(ctx) -> None:
         pair_pool = [[DEST, 0, 1, 0, 2, "s1"], [DEST, 0, 2, 0, 2, ""], [DEST, 0, 1, 1, 3, "s2"], [DEST, 7, 2, 0, 2, ""],
                      [DEST, 7, 1, 0, 2, "s3"], [DEST, 255, 3, 0, 13, ""], [DEST, 0, 0, 0, 6, "p"], [DEST, 255, 4, 0, 0, "fw"],
                      [DEST, 0, 2, 1, 3, "q"], [DEST, 255, 3, 0, 19, ""]]
+        for version in ("2.0", "2.1", "2.2"):
+            for ack, rounds, update, fail_between in itertools.product((0, 1), (2, 4), (False, True), (False, True)):
+                if ctx.mine():
+                    arun(resend_after_release_case(ctx, {"kind": "resend-after-release", "version": version, "ack": ack,
+                                                         "rounds": rounds, "update_payload": update, "fail_between": fail_between}))
         for version in ("2.0", "2.1", "2.2"):
             for how, stale_first in itertools.product(("child-removed", "re-presented"), (True, False)):
                 if ctx.mine():
